@@ -310,6 +310,13 @@ def chain_docs():
         Container("CCSDSPacket", header_entries(), abstract=True),
         Container("MID", (("p", "M8"),), base="CCSDSPacket", criteria=(Cmp("PKT_APID", "==", "1"),)),
         Container("LEAF", (("p", "L8"),), base="MID", criteria=(Cmp("M8", "==", "1"),))))))
+    # 6: a record container {RLEN, RDATA(8 * RLEN bits)} referenced twice: the second RDATA is sized by the SECOND RLEN (the values of the
+    # repeated parameters themselves are not judged, the bit accounting is)
+    rd = PType("RD_T", "Binary", BinEnc(Dyn("RLEN8", False, 8, 0)))
+    out.append(("record-twice: child([RLEN8,RDATA],[RLEN8,RDATA],T8)", Doc(pts + (rd,), header_params() + P("RLEN8", "T8") + (Param("RDATA", "RD_T"),), (
+        Container("CCSDSPacket", header_entries(), abstract=True),
+        Container("CH", (("c", "REC"), ("c", "REC"), ("p", "T8")), base="CCSDSPacket", criteria=(Cmp("PKT_APID", "==", "1"),)),
+        Container("REC", (("p", "RLEN8"), ("p", "RDATA")))))))
     return out
 
 
@@ -319,6 +326,15 @@ def _task_chains(task):
         try:
             with case_alarm(300):
                 defn = load_doc(doc) if task["via"] == "xml" else build_objects(doc)
+                if name.startswith("record-twice"):
+                    import itertools
+                    for n in range(1, 8):
+                        for bs in itertools.product((0, 1, 2), repeat=n):
+                            pkt = framing.mk_packet(bytes(bs), apid=1)
+                            judge_packet(t, doc, defn, pkt, {"chain": ci, "layout_name": name, "n": n, "via": task["via"]}, name)
+                        t.nontrivial += 1
+                    t.programs += 1
+                    continue
                 for n in range(1, 9):
                     for fill in ("00000000", "11111111", "00000001", "01000001"):
                         for first in ("", "00000001"):
@@ -343,7 +359,7 @@ def run(ctx):
         "bound": (f"{n} layouts ({'with the thorough-only alignment/field-kind variants; ' if not ctx.quick else ''}fixed: u8,u16 / u3,u13 / f32 / str16 / bin12,u4 / str12 / str12,u4 / str29,u3,u8 / u8,str20 / s64 / u16le,u8; length dependent: LEN+BLOB 8*LEN+{{0,8,-8}}, "
                   "rest-of-packet 8*PKT_LEN-{8,16,64}+TAIL, dynamic string, unaligned variants, float after dynamic blob, calibrated length, bit-granular length) "
                   f"x LEN 0..{5 if ctx.quick else 9} x every data length 1..required+{3 if ctx.quick else 6} bytes x {3 if ctx.quick else 4} fills x parse_bad_pkts {{T,F}}, from XML and from objects; "
-                  "5 multi-container layouts (base container with a field after the header, two-level inheritance with abstract and concrete middle levels, a nested "
+                  "6 multi-container layouts (a record container with a length and a payload sized by it referenced twice, over every byte string of <= 7 bytes from {0,1,2}; base container with a field after the header, two-level inheritance with abstract and concrete middle levels, a nested "
                   "container between fields, a value-selected leaf) x every data length 1..8 bytes (so that packets end on every container boundary) x 4 fills x 2 leading bytes; "
                   "per layout every stream of 2..3 packets over {exactly consumed, 2 bytes longer, 1 byte shorter} with warnings attributed per next() call"),
         "rule": "one evaluation = one single-packet generator run; distinct non-trivial = distinct (layout, LEN) pairs swept over all lengths",
